@@ -166,6 +166,11 @@ def alpha_var_fn(desc):
         return lambda m: np.exp(beta * (np.asarray(m, dtype=float) - 1.0))
     if av["kind"] == "step":
         return lambda m: np.where(np.asarray(m, dtype=float) > 0.5, 1.0, 1.0 + beta)
+    if av["kind"] == "stored-x":
+        # position-dependent diffusivity kept on the object: the hook hands out THE SAME array every
+        # time (the harness's own copy is what the oracle uses)
+        ax = 1.0 + beta * np.linspace(0.0, 1.0, int(desc["nx"])) ** 2
+        return lambda m: ax.copy()
     raise ValueError(av["kind"])
 
 
@@ -200,8 +205,12 @@ def build(desc):
         if fn is not None:
             # the public hook `alpha_scaled` overridden in a user's subclass, run through the
             # inherited IdealReservoir.simulate: diffusivity that depends on the previous profile
+            stored = fn(None) if desc["alpha_var"]["kind"] == "stored-x" else None
+
             class VariableDiffusivityIdeal(IdealReservoir):
                 def alpha_scaled(self, pseudopressure):
+                    if stored is not None:
+                        return stored  # the object's own array, not a copy
                     return fn(pseudopressure)
 
             K = VariableDiffusivityIdeal
